@@ -91,7 +91,7 @@ def transitions(prog, ctx, op, depth_bound=7, unsafe_mode=False, emit=True, vers
         mods = mf()
         I = Interp(prog, run, mods)
         fl = dict(flags or {})
-        if not unsafe_mode:
+        if unsafe_mode is False:
             fl.setdefault("unsafe_mutations", False)
         h = ctx.make_generator(depth_bound=depth_bound, version=version, flags=fl, memo_classes=memo_classes,
                                mutators=G.AbsMutators(ctx, max_iter=max_iter))
